@@ -180,13 +180,37 @@ def check(P, R):
 
     # the guard(s)
     guards = []
+    class _G:      # the two operands of a containment test, whatever its spelling
+        def __init__(self, name, root, node):
+            self.name, self.root, self.node = name, root, node
+
     for n in g.nodes:
         if n.kind != 'test':
             continue
         t, neg = strip_not(n.ast)
+        if isinstance(t, ast.Name) and rd.is_local(t.id):
+            # a flag computed just before: look at the expression it stands for (one level, its operands stay names)
+            ds_ = rd.at(n, t.id)
+            if len(ds_) == 1 and ds_[0].kind == 'assign' and ds_[0].value is not None:
+                t2, neg2 = strip_not(ds_[0].value)
+                t, neg = t2, (neg != neg2)
+                cpx_ = compare_parts(t)
+                if cpx_ and isinstance(cpx_[0], ast.Subscript) and isinstance(cpx_[0].slice, ast.Slice) and isinstance(cpx_[0].slice.upper, ast.Name):
+                    # name[:root_len] with root_len = len(root)
+                    import copy as _copy
+                    t = _copy.deepcopy(t)
+                    compare_parts(t)[0].slice.upper = T.expand(f, cpx_[0].slice.upper, ds_[0].node)
+        cp_ = compare_parts(t)
+        if cp_ and cp_[1] in (ast.Eq, ast.NotEq) and isinstance(cp_[0], ast.Subscript) and isinstance(cp_[0].slice, ast.Slice) \
+                and cp_[0].slice.lower is None and cp_[0].slice.step is None and isinstance(cp_[0].value, ast.Name) and isinstance(cp_[2], ast.Name) \
+                and isinstance(cp_[0].slice.upper, ast.Call) and dotted(cp_[0].slice.upper.func) == 'len' and src(cp_[0].slice.upper.args[0]) == cp_[2].id:
+            # name[:len(root)] == root  is  name.startswith(root)
+            passes = (cp_[1] is ast.Eq) != neg
+            guards.append((n, _G(cp_[0].value, cp_[2], t), 'true' if passes else 'false'))
+            continue
         if isinstance(t, ast.Call) and call_attr(t) == 'startswith' and len(t.args) == 1:
             if isinstance(t.func.value, ast.Name) and isinstance(t.args[0], ast.Name):
-                guards.append((n, t, 'false' if neg else 'true'))   # pass label
+                guards.append((n, _G(t.func.value, t.args[0], t), 'false' if neg else 'true'))   # pass label
             else:
                 R.ob('C16.c', f, n.ast, False, text=f'prefix test {short(t)}', detail=
                      f'the containment test compares transformed strings (`{short(t.func.value)}` against `{short(t.args[0])}`) instead of the normalised path and root '
@@ -211,7 +235,7 @@ def check(P, R):
                 okd, st = deny_return_ps(X, n, deny, {403, 404}, sink_nodes)
             R.ob('C16.b', f, n.ast, okd, text=f'{short(n.ast)} -> {st}', detail='' if okd else
                  f'the failing edge of the prefix test does not return 403/404 (got {st})')
-            gname = t.func.value.id
+            gname = t.name.id
             name_var = gname
             # d: same definition opened
             okn = isinstance(arg, ast.Name) and arg.id == gname and rd.same_defs(n, cn, gname)
@@ -220,9 +244,9 @@ def check(P, R):
                  f'(rebound or different expression after the check)',
                  why='the check validates one string and the open uses another: dot-dot / separator rewriting after the check escapes the root')
             # c: operands
-            rootarg = t.args[0]
+            rootarg = t.root
             okr, detr = root_shape_ok(P, f, rootarg, n, R)
-            R.ob('C16.c', f, n.ast, okr, text=f'root operand of {short(t)}', detail=detr,
+            R.ob('C16.c', f, n.ast, okr, text=f'root operand of {short(t.node)}', detail=detr,
                  why='without the trailing separator /srv/static-private passes the test for root /srv/static', key_extra='root')
             # name = abspath(join(root, <param filename>))
             defs = rd.root_defs(n, gname)
@@ -250,7 +274,7 @@ def check(P, R):
                 if not from_param:
                     okf, detf = False, 'the joined name does not come from the filename argument'
                     break
-            R.ob('C16.c', f, n.ast, okf, text=f'name operand of {short(t)}', detail=detf, key_extra='name')
+            R.ob('C16.c', f, n.ast, okf, text=f'name operand of {short(t.node)}', detail=detf, key_extra='name')
 
     # e: exists / isfile / access dominate the sink
     for c in sinks:
